@@ -1,4 +1,4 @@
-"""Shared rules on how caller-supplied `FileOptions` reach the entry that is written (E9 symbolic execution + E5 provenance).
+"""Shared rules on how caller-supplied `FileOptions` reach the entry that is written (E9 field-sensitive value flow + E5 provenance).
 
 OPENERS  -- every public `ZipWriter` method that takes a `FileOptions` hands it to `start_entry` (or to another opener) such that,
             on EVERY path,
@@ -51,7 +51,7 @@ def opener_rules(facts, rep, rule="C01-OPENERS"):
         try:
             res = sym.Sym(f).run(lambda bb, t: re.search(r"::start_entry$", t.get("callee") or "") or (t.get("callee") or "") in names)
         except sym.SymTooComplex:
-            ok &= rep.check(False, rule, "%s:analysable" % short, where(f, f.span), "", "%s has too many paths for the symbolic executor (fail closed)" % short)
+            ok &= rep.check(False, rule, "%s:analysable" % short, where(f, f.span), "", "%s has too many paths for the value-flow engine (fail closed)" % short)
             continue
         if not res:
             ok &= rep.check(False, rule, "%s:opens" % short, where(f, f.span), "", "%s takes FileOptions but no path hands them to start_entry or another opener" % short)
